@@ -209,7 +209,12 @@ class _Ctx:
                 if fs.default is None and not fs.nullable:
                     raise Unsupported("null default on a non-nullable field")
                 if tag is not None and ignorable and raw_default is None and ktype not in ("uuid",) + NUMERIC + ("bool", "error_code"):
-                    raise Unsupported("tagged ignorable field without default whose kio default differs from Kafka's")
+                    # documented modelling case: kio represents such a field as `T | None = None` (absent <=> None) instead of
+                    # Kafka's empty/zero default; accepted as is, in the versions where the field is tagged - and only there
+                    if ktype == "records":
+                        raise Unsupported("tagged records")
+                    fs.nullable = True
+                    fs.default = None
                 if tag is not None and def_nullable and raw_default != "null":
                     raise Unsupported("tagged nullable field without default null")
                 if tag is not None and ktype == "records":
